@@ -449,39 +449,109 @@ def rule_aff_flags(ctx: Ctx) -> None:
 
 
 def rule_exh_mem(ctx: Ctx) -> None:
+    """EXH-MEM by evaluation: memory_usage() is evaluated symbolically in two worlds (every slot set / every slot
+    None).  With every slot set the reported numbers must add up to sum(slot.nelement() * slot.element_size()) with
+    each slot counted exactly once; with every slot None no slot may be dereferenced."""
+    from kfv import symexec
+    from kfv.terms import Facts
+    from kfv.terms import Poly
     p = ctx.prog
     p.family = None
-    ctx.rule('EXH-MEM', 'every tensor slot of the layer classes is counted in memory_usage() as nelement()*element_size() (exception: the transient _grad)', floor=11)
+    ctx.rule('EXH-MEM', 'every tensor slot of the layer classes is counted exactly once in memory_usage() as nelement()*element_size() and guarded against None (exception: the transient _grad)', floor=11)
+
+    def track(n: ast.AST) -> str | None:
+        if isinstance(n, ast.Name):
+            return n.id
+        if isinstance(n, ast.Subscript) and isinstance(n.value, ast.Name) and isinstance(n.slice, ast.Constant):
+            return norm(n)
+        return None
+
+    def reported(mu, none: bool) -> Poly | None:  # noqa: ANN001
+        cb = symexec.SymCB(lambda c: None, track, None, None, Facts({}, lambda _t: none))
+        _final, exits = symexec.run(mu, cb, {})
+        rets = [(s_, r) for s_, r in exits if isinstance(r, ast.Return) and r.value is not None]
+        if len(rets) != 1:
+            return None
+        s_, r = rets[0]
+        tot = Poly.const(0)
+        if isinstance(r.value, ast.Dict):
+            for v in r.value.values:
+                tot = tot + cb.value(s_, v)
+        elif isinstance(r.value, ast.Name):
+            for k, v in s_.env:
+                if k.startswith(r.value.id + '['):
+                    tot = tot + v
+            base = s_.get(r.value.id)
+            if base is not None and isinstance(base, Poly):
+                tot = tot + Poly.atom('base:' + base.canon())
+        else:
+            return None
+        return tot
+
+    def coeff(tot: Poly, acc: str) -> object:
+        names = ({f'{acc}.nelement()', f'{acc}.element_size()'}, {f'{acc}.numel()', f'{acc}.element_size()'})
+        c = 0
+        for k, v in tot.t.items():
+            if {a for a, _e in k} in names and all(e == 1 for _a, e in k):
+                c += v
+        return c
+
     for c in p.subclasses(LAYER):
         init = c.methods.get('__init__')
         if init is None:
             continue
         slots = []
         for n in p.nodes(init):
-            if isinstance(n, ast.AnnAssign) and isinstance(n.target, ast.Attribute) and 'Tensor' in norm(n.annotation):
-                slots.append(n.target.attr)
+            ann = n.annotation if isinstance(n, ast.AnnAssign) else getattr(n, '_kfv_ann', None)
+            tg = n.target if isinstance(n, ast.AnnAssign) else (n.targets[0] if isinstance(n, ast.Assign) else None)
+            if ann is not None and isinstance(tg, ast.Attribute) and 'Tensor' in norm(ann):
+                slots.append(tg.attr)
         if not slots:
             continue
         mu = c.methods.get('memory_usage')
         if mu is None:
             ctx.violate('EXH-MEM', init, c.name, f'{c.name} declares tensor slots {slots} but has no memory_usage()', c.node)
             continue
-        txt = ' '.join(norm(st) for st in mu.body)
+        tot_set = reported(mu, False)
+        tot_none = reported(mu, True)
+        if tot_set is None or tot_none is None:
+            raise AnalysisIncomplete(f'{mu.short}: memory_usage() does not return one dict built from per-key sizes')
         for s in slots:
             if s == '_grad':
                 continue
             pub = s.lstrip('_')
             acc = f'self.{pub}' if pub in c.getters else f'self.{s}'
-            ok = f'{acc}.nelement() * {acc}.element_size()' in txt and f'if {acc} is not None' in txt
-            ctx.check(ok, 'EXH-MEM', mu, f'{c.name}.{s} counted', f'{c.name}.{s}',
-                      f'{c.name}.memory_usage() does not count slot {s} as {acc}.nelement() * {acc}.element_size(): reported bytes would not equal the tensors held', mu.node)
+            k = coeff(tot_set, acc)
+            deref = any(a.startswith(acc + '.') for key in tot_none.t for a, _e in key)
+            ctx.check(k == 1 and not deref, 'EXH-MEM', mu, f'{c.name}.{s} counted once, None-safe', f'{c.name}.{s}',
+                      f'{c.name}.memory_usage() counts slot {s} {k} time(s) as {acc}.nelement() * {acc}.element_size()'
+                      + (' and dereferences it when it is None' if deref else '') + ': reported bytes would not equal the tensors held', mu.node)
         if c.fullname != LAYER:
-            ctx.check('super().memory_usage()' in txt, 'EXH-MEM', mu, f'{c.name}.memory_usage extends the base accounting', c.name,
+            txt = ' '.join(norm(st) for st in mu.body)
+            ctx.check('super().memory_usage()' in tot_set.canon() or 'super().memory_usage()' in txt, 'EXH-MEM', mu, f'{c.name}.memory_usage extends the base accounting', c.name,
                       f'{c.name}.memory_usage() does not include super().memory_usage() (factors and batch buffers)', mu.node)
     # the preconditioner sums all layers and all keys
     f = p.get_func(f'{BP}.memory_usage')
-    txt = ' '.join(norm(st) for st in f.body)
-    ok = 'layer.memory_usage()' in txt and 'self._layers.values()' in txt and "sizes['total'] = sum(sizes.values())" in txt and 'sizes[key] += size' in txt
+    ok = False
+    for lp in [n for n in p.nodes(f) if isinstance(n, ast.For) and 'self._layers.values()' in norm(n.iter)]:
+        lay = [x.id for x in ast.walk(lp.target) if isinstance(x, ast.Name)]
+        for inner in [n for n in ast.walk(lp) if isinstance(n, ast.For) and n is not lp and isinstance(n.target, ast.Tuple) and len(n.target.elts) == 2]:
+            it = norm(inner.iter)
+            src = it[:-len('.items()')] if it.endswith('.items()') else None
+            if src is None:
+                continue
+            if not any(src == f'{nm}.memory_usage()' for nm in lay):
+                defs = [norm(n.value) for n in ast.walk(lp) if isinstance(n, ast.Assign) and norm(n.targets[0]) == src]
+                if not any(d == f'{nm}.memory_usage()' for d in defs for nm in lay):
+                    continue
+            kv, vv = norm(inner.target.elts[0]), norm(inner.target.elts[1])
+            for a_ in [n for n in ast.walk(inner) if isinstance(n, ast.AugAssign) and isinstance(n.op, ast.Add)]:
+                if isinstance(a_.target, ast.Subscript) and norm(a_.target.slice) == kv and norm(a_.value) == vv and not flow.enclosing_guards(p, f, a_):
+                    acc_d = norm(a_.target.value)
+                    tot = [n for n in p.nodes(f) if isinstance(n, ast.Assign) and norm(n.targets[0]) == f"{acc_d}['total']" and norm(n.value) == f'sum({acc_d}.values())']
+                    rets = [n for n in p.nodes(f) if isinstance(n, ast.Return) and n.value is not None]
+                    if tot and rets and all(norm(r_.value) == acc_d for r_ in rets) and not flow.enclosing_guards(p, f, lp):
+                        ok = True
     ctx.check(ok, 'EXH-MEM', f, 'preconditioner sums every key of every layer and a total', 'memory_usage',
               'BaseKFACPreconditioner.memory_usage() does not sum every key of every registered layer plus a total', f.node)
 
